@@ -125,7 +125,8 @@ def specIter (a : List String) : Option String :=
   match parseIter a with
   | none => none
   | some q =>
-    if q.mode == "digest-nospec" then none else
+    -- requests too large for the list-comprehension oracle still have the oracle of C08: the drain returns, no panic
+    if q.mode == "digest-nospec" then some "all:nopanic" else
     match q.board with
     | [some f0, some f1, some f2, none, none] =>
       let flop := [f0.code, f1.code, f2.code]
